@@ -462,11 +462,11 @@ def rule_SB(ctx, tier):
         else:
             rr.fail("expiry-user", "has_subscription_expired looks up `%s`" % og.show(arg_origin(ctx, h, bb, 1)), where=h.line_of(bb))
     # the purge predicate, whether it is written as an iterator filter closure or as an `if` around a push in a loop
-    gou = P.require(GK + "get_outdated_users")
+    gou = P.require(GK + "outdated_users_in")
     from .rulekit import rel_of_term
 
     def is_purge_cmp(op, l, r):
-        return op == "Ge" and l == ("param", GK + "get_outdated_users", 2) and "Add" in og.show(r) and "f:subscription_expiry" in og.show(r) and "f:expiry_delta" in og.show(r)
+        return op == "Ge" and isinstance(l, tuple) and l[:2] == ("param", gou.id) and gou.locals[l[2]]["ty"] == "u32" and "Add" in og.show(r) and "f:subscription_expiry" in og.show(r) and "f:expiry_delta" in og.show(r)
     cands = []  # (description, [(op, l, r)...])
     for cid in P.family(gou.id):
         cb = P.bodies[cid]
